@@ -2,7 +2,7 @@
 # usage: tools/confirm_seed.sh <PROP> <A|B>   -- confirms the seeded change in /tmp/seed-<PROP>/OUT and archives it
 # under /verif/seeded/<PROP>-<A|B>/ (patch.diff, demo.py, notes.md, meta.json)
 set -u
-P=$1; V=$2; W=/tmp/seed-$P; O=$W/OUT
+P=$1; V=$2; PFX=${3:-seed}; R=${4:-}; W=/tmp/$PFX-$P; O=$W/OUT
 cd $W || exit 9
 git checkout -q -- . ; git status --short | grep -v '^??' && { echo "worktree not clean"; exit 9; }
 PYTHONPATH=$W timeout 300 /venv/bin/python OUT/demo_$V.py >/tmp/confirm-$P-$V.clean.log 2>&1; a=$?
@@ -10,12 +10,12 @@ git apply OUT/$V.diff || { echo "patch does not apply"; exit 9; }
 PYTHONPATH=$W timeout 300 /venv/bin/python OUT/demo_$V.py >/tmp/confirm-$P-$V.mut.log 2>&1; b=$?
 /verif/tools/baseline.py $W >/tmp/confirm-$P-$V.suite.log 2>&1; c=$?
 git checkout -q -- .
-echo "$P-$V: demo_clean_exit=$a demo_mutant_exit=$b suite_exit=$c ($(tail -1 /tmp/confirm-$P-$V.suite.log | head -c 100))"
+echo "$P-$R$V: demo_clean_exit=$a demo_mutant_exit=$b suite_exit=$c ($(tail -1 /tmp/confirm-$P-$V.suite.log | head -c 100))"
 if [ $a -eq 0 ] && [ $b -ne 0 ] && [ $c -eq 0 ]; then
-  D=/verif/seeded/$P-$V; mkdir -p $D
+  D=/verif/seeded/$P-$R$V; mkdir -p $D
   cp OUT/$V.diff $D/patch.diff; cp OUT/demo_$V.py $D/demo.py; cp OUT/notes.md $D/notes.md
   cat > $D/meta.json <<M
-{"id": "$P-$V", "breaks_property": "$P", "source": "independent sub-agent given only the property text and a scratch worktree",
+{"id": "$P-$R$V", "breaks_property": "$P", "source": "independent sub-agent given only the property text and a scratch worktree",
  "base_commit": "$(git rev-parse --short HEAD)",
  "confirmed": {"demo_on_clean_tree_exit": $a, "demo_with_change_exit": $b, "pinned_suite_with_change": "254/254 stable tests pass"},
  "commands": ["PYTHONPATH=<worktree> /venv/bin/python demo.py (clean: exit 0; with patch: exit $b)", "/verif/tools/baseline.py <worktree with patch>"],
